@@ -54,6 +54,7 @@ def run(ctx):
     c07.rule_cat(ctx, F)
     c18.rule_tail(ctx, F)
     c18.rule_tab(ctx, F)    # binary fields are written and read through the Base16/32/64 alphabets
+    c18.rule_encbits(ctx, F)  # and the encoders put the right bits into each symbol
     c03.rule_esc(ctx, F)    # what Label's Display leaves unescaped against the reader (shared with C03)
 
 
